@@ -1,8 +1,8 @@
 #!/usr/bin/env bash
 # tools/recheck_refactors.sh [parallel=3] [out=refactors/RECHECK.txt]  - all twenty quick checks against every property-preserving
-# refactor (false-alarm side). Expected: exit=0 on every line (refactors pinned to an older base report that base's fixed defects).
+# refactor (false-alarm side). CHECKS="C02 C04" restricts the run to some checks. Expected: exit=0 on every line (refactors pinned to an older base report that base's fixed defects).
 HERE="$(cd "$(dirname "$0")/.." && pwd)"; cd "$HERE"
 PAR="${1:-3}"; OUT="${2:-refactors/RECHECK.txt}"; : > "$OUT"
-ls -d refactors/*/ | xargs -P "$PAR" -I{} bash -c 'd={}; d=${d%/}; [ -f $d/patch.diff ] || exit 0; SEEDED_SLOT="rf-$(basename $d)" tools/run_seeded.sh $d $(seq -f "C%02g" 1 20) 2>&1 | grep "^SEEDED\|PATCH" | cut -c1-330 >> '"$OUT"
+ls -d refactors/*/ | xargs -P "$PAR" -I{} bash -c 'd={}; d=${d%/}; [ -f $d/patch.diff ] || exit 0; SEEDED_SLOT="rf-$(basename $d)" tools/run_seeded.sh $d ${CHECKS:-$(seq -f "C%02g" 1 20)} 2>&1 | grep "^SEEDED\|PATCH" | cut -c1-330 >> '"$OUT"
 sort -o "$OUT" "$OUT"
 echo "runs: $(wc -l < "$OUT")  exit=0: $(grep -c "exit=0" "$OUT")  alarms: $(grep -c "exit=1" "$OUT")  inconclusive: $(grep -c "exit=2" "$OUT")"
